@@ -99,11 +99,11 @@ TUObs == IsEvent("UObs") /\ LET e == Log[l] IN
           /\ U!Observe(e.u) /\ UScalars(e, un[e.u]) /\ SkUnchanged /\ UNCHANGED <<ug, uoo>> /\ GScalars(e, ug[e.u])
 TUEst == IsEvent("UEst") /\ LET e == Log[l]  o == un[e.u] IN
           /\ U!Observe(e.u) /\ UScalars(e, o)
+          /\ Chk("out-of-order-input-reports-composite-estimate", uoo[e.u] => e.est = e.cest)
+          /\ Chk("union-bounds-bracket-estimate", \A k \in 1..3 : e.lb[k] <= e.est /\ e.est <= e.ub[k])
           /\ Chk("C06:bounds", /\ e.lb[3] <= e.lb[2] /\ e.lb[2] <= e.lb[1] /\ e.lb[1] <= e.est
                                /\ e.est <= e.ub[1] /\ e.ub[1] <= e.ub[2] /\ e.ub[2] <= e.ub[3])
           /\ Chk("C06:empty-estimate", o.empty => e.estF = 0)
-          /\ Chk("union-bounds-bracket-estimate", \A k \in 1..3 : e.lb[k] <= e.est /\ e.est <= e.ub[k])
-          /\ Chk("out-of-order-input-reports-composite-estimate", uoo[e.u] => e.est = e.cest)
           /\ SkUnchanged /\ UNCHANGED uoo
           \* the estimate getters run check_rebuild_kxq_cur_min on the gadget
           /\ ug' = UgSet([ug EXCEPT ![e.u] = IF GSup(@) THEN G!GCheckRebuild(@) ELSE @]) /\ GScalars(e, ug'[e.u])
@@ -134,23 +134,23 @@ ResultContent(e) == LET o == un[e.u]  r == e.r  lg == U!LgStar(o) IN
                                                     ELSE IF Has(r, "nz") THEN ToSet(r.nz)
                                                     ELSE {<<x - 1, r.regs[x]>> : x \in {y \in DOMAIN r.regs : r.regs[y] > 0}},
                                              coup |-> IF r.cmode = HLL THEN {} ELSE ToSet(r.coup)]))
-          /\ UBoundsOK(r, o, r.cmode = HLL)
           \* the bounds clause of C03 applied to union results; a union that received an out-of-order input answers with the
-          \* composite estimate (its HIP accumulator is meaningless)
-          /\ Chk("result-bounds-bracket-estimate", \A k \in 1..3 : r.lb[k] <= r.est /\ r.est <= r.ub[k])
+          \* composite estimate (its HIP accumulator is meaningless).  (Before the C06-named clauses, which C04 does not report.)
           /\ Chk("out-of-order-input-reports-composite-estimate", uoo[e.u] => r.est = r.cest)
+          /\ Chk("result-bounds-bracket-estimate", \A k \in 1..3 : r.lb[k] <= r.est /\ r.est <= r.ub[k])
+          /\ UBoundsOK(r, o, r.cmode = HLL)
 ResultChecks(e) == /\ ResultContent(e)
                    /\ (Has(e.r, "ph") => GResultOK(e.r.ph, e.type, ug[e.u])) /\ GScalars(e, ug[e.u])
 TUResult == IsEvent("UResult") /\ ResultChecks(Log[l]) /\ SkUnchanged /\ UNCHANGED <<ug, uoo>>
 \* get_result in all three types, first from the union as it is, then from a copy of it on which get_composite_estimate() was
 \* called before: a result must not depend on its type or on whether an unrelated query was made earlier
 TUResults3 == IsEvent("UResults3") /\ LET e == Log[l] IN
-          /\ \A n \in DOMAIN e.rs : LET x == [u |-> e.u, type |-> e.rs[n].type, r |-> e.rs[n], lgk |-> e.lgk, empty |-> e.empty] IN
-               IF n <= 3 THEN ResultChecks(x) ELSE ResultContent(x)
           /\ \A n, k \in DOMAIN e.rs : n < k => LET d == e.dq[n][k]  a == e.rs[n]  b == e.rs[k] IN
                /\ Chk("result-composite-estimate-agrees-across-types-and-queries", a.cest = b.cest \/ d[1] <= 1)
                /\ Chk("result-estimate-agrees-across-types-and-queries", a.est = b.est \/ d[2] <= 1)
                /\ Chk("result-bounds-agree-across-types-and-queries", (a.lb[3] = b.lb[3] \/ d[3] <= 1) /\ (a.ub[3] = b.ub[3] \/ d[4] <= 1))
+          /\ \A n \in DOMAIN e.rs : LET x == [u |-> e.u, type |-> e.rs[n].type, r |-> e.rs[n], lgk |-> e.lgk, empty |-> e.empty] IN
+               IF n <= 3 THEN ResultChecks(x) ELSE ResultContent(x)
           /\ SkUnchanged /\ UNCHANGED <<ug, uoo>>
 \* a result kept as a sketch of its own (fed to further unions): its contract value is the union's ghost at that moment
 TUResultAs == IsEvent("UResultAs") /\ LET e == Log[l]  o == un[e.u]  r == e.r IN
